@@ -30,7 +30,9 @@ Vals == << "null", Q(""), Q("a"), Q("a*"), Q("?"), Q("/r/"), Q("/"), Q("*"), "5"
            Q("x\\\"min\\\":\\\"max\\\":"),
            \* strings a careless slice, index or format verb trips over: one quote, two quotes, backslashes at the end / before a
            \* wildcard, a percent sign, schema words, a slash, number look-alikes
-           Q("\\\""), Q("\\\"\\\""), Q("\\\\"), Q("foo*\\\\"), Q("a\\\\*b"), Q("/r\\\\/"), Q("%"), Q("a%sb"), Q("left"), Q("min"), Q("'"), Q("010"), Q("1e3"), Q(" "), Q("a b") >>
+           Q("\\\""), Q("\\\"\\\""), Q("\\\\"), Q("foo*\\\\"), Q("a\\\\*b"), Q("/r\\\\/"), Q("%"), Q("a%sb"), Q("left"), Q("min"), Q("'"), Q("010"), Q("1e3"), Q(" "), Q("a b"),
+           Q("aaaaaaaaaaaaaaaaaaaaaaaaaaaaaaaaaaaaaaaaaaaaaaaaaaaaaaaaaaaaaaa"),       \* 63 bytes: PostgreSQL's longest identifier
+           Q("aaaaaaaaaaaaaaaaaaaaaaaaaaaaaaaaaaaaaaaaaaaaaaaaaaaaaaaaaaaaaaaa") >>
 Ops == << "AND", "OR", "EQUALS", "LIKE", "NOT", "RANGE", "MUST", "MUST_NOT", "BOOST", "FUZZY", "LITERAL", "WILD", "REGEXP",
           "GREATER", "LESS", "GREATER_EQ", "LESS_EQ", "IN", "LIST", "BOGUS", "", "and" >>
 Extras == << "", "," \o Q("distance") \o ":2", "," \o Q("distance") \o ":" \o Q("x"), "," \o Q("distance") \o ":null",
